@@ -270,6 +270,20 @@ def gen(rng, tier):
                 desc["max_chunk"] = rng.randint(1, 5)
                 desc["max_chunk2"] = rng.randint(1, 5)
             yield desc
+    # large plates with variances at the ends of the allowed range (implementation-only predicate: the exact-rational
+    # model is not run on 100-experiment plates): the padded kernel must equal the direct per-experiment estimator and stay
+    # finite where the estimator is - products over a plate's experiments leave the double range long before sums of logs do
+    for _ in range(24 * mult):
+        T = rng.choice([3, 4, 5])
+        scale = rng.choice([2.0 ** -10, 2.0 ** -10, 1.0, 2.0 ** 10, 2.0 ** 10, None])
+        plates = []
+        for s_ in [rng.choice([1, 7, 48, 64, 96, 128]) for _ in range(rng.choice([1, 2, 3]))] + [rng.choice([64, 96, 128])]:
+            mu = [[_mean(rng) / 4 for _ in range(s_)] for _ in range(T)]
+            var = [[(scale * rng.choice([0.5, 1.0, 1.0, 2.0]) if scale else 10.0 ** rng.uniform(-3, 3)) for _ in range(s_)] for _ in range(T)]
+            plates.append(dict(mu=mu, var=var))
+        rng.shuffle(plates)
+        yield dict(kind="bigfp", T=T, plates=plates, D=_matrix(rng, T, zero_diag=False), df=1.0, seed=rng.randrange(1 << 30),
+                   max_combos=5000, homo=False)
     # malformed
     for _ in range(30 * mult):
         T = rng.choice([3, 4, 5])
@@ -382,6 +396,19 @@ def run(desc):
 
     def arr(p, key):
         return np.array(p[key], dtype=float).reshape(T, -1)
+
+    if kind == "bigfp":
+        scores, rr = _hetero(plates, D, df, seed, mc)
+        pred = _contract(rr.calls, T, mc, 1) or _pred_direct(scores, plates, D, df, all_triples, "heteroscedastic, large plates")
+        if pred is None and not isinstance(scores, ImplError):
+            ref = [direct_loop(p["mu"], p["var"], D, df, all_triples) for p in plates]
+            for k_, (sc, rf) in enumerate(zip(scores, ref)):
+                if rf is not None and (sc is None or isinstance(sc, str) or not math.isfinite(sc)):
+                    pred = "score of plate %d (%d experiments) is %r although the direct estimator is finite (%r)" % (k_, sizes[k_], sc, rf)
+                    break
+        vs = [v for p in plates for row in p["var"] for v in row]
+        feats += ["large-plate", "var<=2^-9" if max(vs) <= 2.0 ** -9 else "var>=2^9" if min(vs) >= 2.0 ** 9 else "var-mixed"]
+        return dict(wire=None, impl=None, pred=pred, features=feats)
 
     if kind == "hetero":
         scores, rr = _hetero(plates, D, df, seed, mc)
